@@ -7,7 +7,7 @@ import numpy as np
 
 from .. import alph
 from .. import oracles as O
-from ..core import CaseResult
+from ..core import CaseResult, twice
 
 PROP = "C01"
 LEVEL = "exploration"
@@ -41,8 +41,10 @@ def check_case(case):
     gd = O.gram_det(cell)
     tol = 1e-9 / gd
     key = "%s:cell=%s" % (mname, cell)
-    A = np.asarray(mod.form_a_mat(cell), float)
-    B = np.asarray(mod.form_b_mat(cell), float)
+    A = np.asarray(twice(r, key + ":form_a_mat", mod.form_a_mat, cell), float)
+    B = np.asarray(twice(r, key + ":form_b_mat", mod.form_b_mat, cell), float)
+    for fname, arg in (("a_to_cell", A), ("b_to_cell", B), ("cell_invert", list(cell)), ("form_a_mat_inv", list(cell))):
+        twice(r, key + ":" + fname, getattr(mod, fname), arg)
     for nm, M in (("A", A), ("B", B)):
         r.require(M[1, 0] == 0 and M[2, 0] == 0 and M[2, 1] == 0, key + ":%s-triangular" % nm, "%s is upper triangular (exact zeros below the diagonal)" % nm, None, M)
         r.require(bool(np.all(np.diag(M) > 0)), key + ":%s-diag" % nm, "%s has a positive diagonal" % nm, None, np.diag(M))
